@@ -57,6 +57,9 @@ func RunHTTP(env *Env, prefix, in, out string) error {
 		ref := "no-such-ref"
 		var results []any
 		sub := func(s string) string {
+			if len(prefix) >= 3 {
+				s = strings.ReplaceAll(s, "{P3}", prefix[:3])
+			}
 			s = strings.ReplaceAll(s, "{P}", prefix)
 			s = strings.ReplaceAll(s, "{REF}", ref)
 			s = strings.ReplaceAll(s, "{SINK}", env.SinkURL)
